@@ -328,7 +328,7 @@ def run_verus(path, rlimit=None, multiple_errors=40, log_air=True, extra=None, t
     vr = j.get("verification-results", {})
     r.verified = vr.get("verified", 0)
     r.errors = vr.get("errors", 0)
-    r.ok = bool(vr.get("success"))
+    r.ok = (r.errors == 0 and not vr.get("encountered-error") and not vr.get("encountered-vir-error"))
     if vr.get("encountered-vir-error") or (not r.ok and r.errors == 0):
         r.compile_errors = [d for d in r.diagnostics]
     r.times = j.get("times-ms", {})
